@@ -16,7 +16,7 @@ SHARDS = {"quick": 8, "thorough": 16}
 RULE = ("req: _LanProtocolV3._encode_encrypted_request(counter, payload) under a session key decoded by the independent V3 "
         "decoder (type 6, counter, payload, pad == (16-(len+2)%16)%16, size == len+pad+32, total == size+8, valid SHA-256 tag); "
         "resp: packets from the independent encoder decoded by _process_packet, directly or as they arrive on a connection (through the stream framer's data_received, whole or cut in two, then taken from the receive queue); tamper: every single-bit flip of one response "
-        "per residue must make LAN._read semantics (_process_packet then _Packet.decode) raise ProtocolError; wire: LAN.send on an "
+        "per residue must make LAN._read semantics (_process_packet then _Packet.decode) raise ProtocolError; wiretamper: the same on a live connection, a response with one bit altered (outside marker and size field) followed by silence must make LAN.send raise ProtocolError, not time out; wire: LAN.send on an "
         "authenticated connection with arbitrary frame lengths (optionally with the request leaving just before the 12 h key lifetime ends and the response arriving just after); half of the codec cases reuse one long-lived protocol object per key instead of a fresh one. Exhaustive payload lengths 0..300 (all 16 residues) and counters "
         "0..4095; keys random. Non-trivial: (len+2)%16==0 or len in {0,1} or counter in {0,255,256,4095} or a tamper case. "
         "Distinct by (kind, len/payload hash, key, counter, flip).")
@@ -176,6 +176,48 @@ def check_case(case: dict):
         if not got or got != replies[:len(got)]:
             return ("wire/replies", f"send returned {[f.hex() for f in got]} not a non-empty prefix of {case['replies']}")
         return None
+    if kind == "wiretamper":
+        # an authenticated connection: the answer to the first transmission arrives with one bit altered (anywhere
+        # except the start marker and the size field, which belong to the stream framer), then the unit stays silent.
+        # LAN.send (default retry budget) must end in a ProtocolError - not in a timeout, not in returned frames.
+        from msmart.lan import LAN
+        frame = bytes.fromhex(case["frame"])
+        token = hashlib.sha512(key).digest()
+        net = vloop.Net()
+        out = {}
+
+        async def main(loop):
+            dev = SimDevice(loop, version=3, device_id=7, token=token, key=key, ac=ModelAC())
+            seen = {"n": 0}
+
+            def on_data(dev_, conn, fr):
+                seen["n"] += 1
+                if seen["n"] > 1:
+                    return ("drop",)
+                pkt = bytearray(dev_.wrap(conn, frame))
+                bit = 32 + case["bit"] % ((len(pkt) - 4) * 8)         # skip bytes 0..3
+                pkt[bit // 8] ^= 1 << (bit % 8)
+                out["where"] = (bit // 8, bit % 8, len(pkt))
+                conn.send_stream(bytes(pkt), delay=dev_.latency)
+                return ("drop",)
+            dev.on_data = on_data
+            net.listen("10.0.0.9", 6444, dev)
+            lan = LAN("10.0.0.9", 6444, 7)
+            await lan.authenticate(token, key)
+            try:
+                out["frames"] = await lan.send(b"\xaa" + bytes(20))
+            except ProtocolError as e:
+                out["perr"] = e
+            except BaseException as e:
+                out["exc"] = e
+            lan._disconnect()
+
+        vloop.run(main, net)
+        if "perr" in out:
+            return None
+        if "exc" in out:
+            return (f"wiretamper/{type(out['exc']).__name__}", f"bit {out.get('where')} of the response altered: LAN.send ended in {out['exc']!r}, not in a protocol error")
+        return ("wiretamper/accepted", f"bit {out.get('where')} of the response altered but LAN.send returned {[bytes(f).hex()[:40] for f in out['frames']]}")
     raise ValueError(kind)
 
 
@@ -184,7 +226,7 @@ def replay(ctx, case):
 
 
 def _nt(case) -> bool:
-    if case["kind"] == "tamper":
+    if case["kind"] in ("tamper", "wiretamper"):
         return True
     if case["kind"] == "wire":
         return True
@@ -200,6 +242,8 @@ def _run_one(ctx, case):
         key = hash((kind, case["payload"], case["key"], case["counter"], case.get("via"), case.get("cut")))
     elif kind == "tamper":
         key = hash((kind, case["frame"], case["key"], case["counter"], case["bit"]))
+    elif kind == "wiretamper":
+        key = hash((kind, case["frame"], case["key"], case["bit"]))
     else:
         key = hash((kind, case["frame"], case["key"], tuple(case["replies"]), tuple(case.get("cuts", []))))
     nt = _nt(case)
@@ -280,6 +324,16 @@ def run(ctx) -> None:
                 case = {"kind": "tamper", "key": _key(r).hex(), "frame": frame.hex(), "counter": 7, "bit": bit, "inner": inner}
                 ctx.check(case, lambda c: _run_one(ctx, c))
     ctx.sweep("single-bit flips of one response per residue", t, True)
+    # the same through LAN.send on a live connection: every bit of header bytes 4..7 and a spread of ciphertext / tag bits
+    w = 0
+    fr = _payload(21, 5)
+    total = 8 + len(rc.v2_encode(7, fr)) + rc.v3_pad_for(len(rc.v2_encode(7, fr))) + 32
+    for bit in list(range(0, 32)) + list(range(32, (total - 4) * 8, 7 if ctx.quick else 1)):
+        w += 1
+        if ctx.mine(w):
+            case = {"kind": "wiretamper", "key": _key(6).hex(), "frame": fr.hex(), "bit": bit}
+            ctx.check(case, lambda c: _run_one(ctx, c))
+    ctx.sweep("single-bit flips of a response on a live connection (LAN.send)", w, not ctx.quick)
 
     hexb = lambda s: s.map(lambda b: b.hex())
     codec_cases = st.fixed_dictionaries({
